@@ -163,6 +163,9 @@ func c02Check(c *vlib.Case, run *vlib.Run, env *pmmvEnv, cfg *pmmvConfig, r *vli
 			}
 		}
 		run.Count("handover_frames_cross_checked", int64(len(env.maps)))
+		if len(env.maps) >= 2 {
+			run.Count("handovers_with_2_or_more_early_frames", 1)
+		}
 		if ierr != nil {
 			run.Count("init_error_"+pmmvErrName(ierr), 1)
 			if len(env.maps)+1 <= nFrames {
@@ -264,13 +267,14 @@ func TestVerifC02(t *testing.T) {
 		}
 	}
 
-	run.Cases(run.N(500, 20000), func(c *vlib.Case) {
+	run.Cases(run.N(1500, 60000), func(c *vlib.Case) {
 		r := c.R.Fork(0xC02)
 		mf := 300
 		if r.Intn(8) == 0 {
 			mf = maxFrames
 		}
-		cfg := pmmvGenConfig(r.Fork(1), pmmvGenOpts{MaxFrames: mf, ForceBoundary: r.Intn(6) == 0})
+		big := r.Intn(25) == 0
+		cfg := pmmvGenConfig(r.Fork(1), pmmvGenOpts{MaxFrames: mf, Big: big, ForceBoundary: r.Intn(6) == 0})
 		one(c, cfg, r.Fork(2))
 	})
 
